@@ -36,7 +36,7 @@ func init() {
 	})
 	register(&Prop{
 		ID: "C19",
-		Rules: []*Rule{rArgUsed, forwardScoped("WithHint*", "WithDetail*", "WithIssueLink", "UnimplementedError*", "WithTelemetry", "WithContextTags", "WithSafeDetails", "GetAll*", "Flatten*", "GetTelemetryKeys", "GetContextTags", "HasIssueLink", "IsIssueLink", "HasUnimplementedError", "IsUnimplementedError"), scoped(rFormatArg, "a stored hint / link text is printed, never used as a format", func(_ *core.Ctx, k string) bool { return containsAny(k, "hintdetail", "issuelink", "telemetrykeys") }), scoped(rEffect, "the accessors never rewrite the annotation they read", func(_ *core.Ctx, k string) bool {
+		Rules: []*Rule{rTagsStrings, scoped(rJoinNode, "a Join of a single error is still a node: the accessors stop at it", nil), rArgUsed, forwardScoped("WithHint*", "WithDetail*", "WithIssueLink", "UnimplementedError*", "WithTelemetry", "WithContextTags", "WithSafeDetails", "GetAll*", "Flatten*", "GetTelemetryKeys", "GetContextTags", "HasIssueLink", "IsIssueLink", "HasUnimplementedError", "IsUnimplementedError"), scoped(rFormatArg, "a stored hint / link text is printed, never used as a format", func(_ *core.Ctx, k string) bool { return containsAny(k, "hintdetail", "issuelink", "telemetrykeys") }), scoped(rEffect, "the accessors never rewrite the annotation they read", func(_ *core.Ctx, k string) bool {
 			return containsAny(k, "keys", "hint", "detail", "IssueLink", "tags", "telemetry", "SafeDetails")
 		}), rPassThroughGuard, rLayerGetter, scoped(rOrder, "the hint/detail/link/tag/safe-detail accessors", func(_ *core.Ctx, k string) bool { return !strings.Contains(k, "GetOneLineSource") }), rHintProviders, rDedup, rFlattenSep, rGuardField, scoped(rFormatStored, "the hint and detail constructors", func(_ *core.Ctx, k string) bool { return containsAny(k, "Hint", "Detail", "printf-like") }), scoped(rAlwaysWraps, "the hint/detail/link/key/tag/safe-detail constructors", func(_ *core.Ctx, k string) bool {
 			return containsAny(k, "WithHint", "WithDetail", "WithIssueLink", "WithTelemetry", "WithContextTags", "WithSafeDetails", "UnimplementedError")
@@ -51,7 +51,7 @@ func init() {
 	})
 	register(&Prop{
 		ID: "C12",
-		Rules: []*Rule{rOwnedBranches, rArgUsed, forwardScoped("WithSafeDetails", "GetAllSafeDetails", "GetSafeDetails", "WithTelemetry", "WithDomain", "New*", "Errorf", "Wrap*", "WithMessage*"), rPassThroughGuard, scoped(rEffect, "read-only operations (accessors, SafeDetails, report building) never rewrite what an error carries as safe details", func(_ *core.Ctx, k string) bool {
+		Rules: []*Rule{rDepth, scoped(rFormatArg, "a constant message is stored as it is, never interpreted as a format", func(_ *core.Ctx, k string) bool { return containsAny(k, "errutil.") }), rOwnedBranches, rArgUsed, forwardScoped("WithSafeDetails", "GetAllSafeDetails", "GetSafeDetails", "WithTelemetry", "WithDomain", "New*", "Errorf", "Wrap*", "WithMessage*"), rPassThroughGuard, scoped(rEffect, "read-only operations (accessors, SafeDetails, report building) never rewrite what an error carries as safe details", func(_ *core.Ctx, k string) bool {
 			return containsAny(k, "SafeDetails", "safeDetails", "tags", "keys", "details")
 		}), rRetain, rErrRefs, rHideKeep, rLoopAlias, rAlwaysWraps, rMemo, scoped(rStdIdentity, "formatting and reporting code", func(_ *core.Ctx, k string) bool {
 			return containsAny(k, "errutil.", "errbase.", "report.", "withstack.", "safedetails.", "barriers.", "secondary.")
@@ -101,7 +101,7 @@ func init() {
 	})
 	register(&Prop{
 		ID: "C07",
-		Rules: []*Rule{rMarkLayers, rArgUsed, forwardScoped("Handled*", "Opaque", "HandleAsAssertionFailure*", "NewAssertionErrorWithWrappedErrf", "WithSecondaryError", "CombineErrors", "Mark"), rDomainGetter, scoped(rWriteFaithful, "the renderer gives back every newline it takes (Handled computes its message through it)", func(_ *core.Ctx, k string) bool { return strings.Contains(k, "separator") }), scoped(rDetailPrint, "the hidden errors of barriers and secondary-error wrappers are printed, as values, in the verbose rendering", func(_ *core.Ctx, k string) bool { return containsAny(k, "maskedErr", "secondaryError") }), rHide, rHideKeep, rBarrierCtor, rWrapDual, rErrRefs, rFormatArg, rSecondaryAttach, scoped(rRegType, "the barrier and secondary-error types", func(_ *core.Ctx, k string) bool { return containsAny(k, "barriers.", "secondary.") }), {Name: "R-CODEC", Doc: rCodec.Doc + " (restricted to the barrier and secondary-error types)", Run: func(c *core.Ctx) {
+		Rules: []*Rule{rArgNotCause, scoped(rNil, "WithSecondaryError with a nil primary error returns nil: the secondary error never becomes the result itself", func(_ *core.Ctx, k string) bool { return containsAny(k, "WithSecondaryError") }), rMarkLayers, rArgUsed, forwardScoped("Handled*", "Opaque", "HandleAsAssertionFailure*", "NewAssertionErrorWithWrappedErrf", "WithSecondaryError", "CombineErrors", "Mark"), rDomainGetter, scoped(rWriteFaithful, "the renderer gives back every newline it takes (Handled computes its message through it)", func(_ *core.Ctx, k string) bool { return strings.Contains(k, "separator") }), scoped(rDetailPrint, "the hidden errors of barriers and secondary-error wrappers are printed, as values, in the verbose rendering", func(_ *core.Ctx, k string) bool { return containsAny(k, "maskedErr", "secondaryError") }), rHide, rHideKeep, rBarrierCtor, rWrapDual, rErrRefs, rFormatArg, rSecondaryAttach, scoped(rRegType, "the barrier and secondary-error types", func(_ *core.Ctx, k string) bool { return containsAny(k, "barriers.", "secondary.") }), {Name: "R-CODEC", Doc: rCodec.Doc + " (restricted to the barrier and secondary-error types)", Run: func(c *core.Ctx) {
 			runCodec(c, func(cp *codecPair) bool { return containsAny(cp.Name, "barriers.", "secondary.") })
 		}}, {Name: "R-TAINT/redactable", Doc: "the hidden message of a barrier is carried as a redactable string: conversions to redact.RedactableString in package barriers (and what its decoders receive) only from strings that were built as redactable - a plain string relabelled as redactable, or a redactable one escaped again, changes the message text after a hop", Run: func(c *core.Ctx) {
 			runTaintFiltered(c, func(s *Sink) bool { return s.Mode == "redactable" && strings.Contains(s.Name, "barriers.") })
@@ -114,7 +114,7 @@ func init() {
 	})
 	register(&Prop{
 		ID: "C06",
-		Rules: []*Rule{rFormattable, scoped(rFmtDelegate, "the Formattable adapter and the module types route every verb through the one dispatcher (no fast path that writes Error() directly)", nil), rEsc, rBufFlag, rWriteFaithful, rVerbDispatch, rRedactableOps, {Name: "R-TAINT/redactable", Doc: "the S3 sub-class of R-TAINT that concerns well-formedness: every conversion of a plain string/[]byte to redact.RedactableString/RedactableBytes takes a value that was BUILT as a redactable string (redact.Sprint*/Redact(), a typed RedactableString input, or the wire slot an encoder fills from one) - never a merely safe plain string, whose marker runes would not be escaped",
+		Rules: []*Rule{rSafeSink, rFormattable, scoped(rFmtDelegate, "the Formattable adapter and the module types route every verb through the one dispatcher (no fast path that writes Error() directly)", nil), rEsc, rBufFlag, rWriteFaithful, rVerbDispatch, rRedactableOps, {Name: "R-TAINT/redactable", Doc: "the S3 sub-class of R-TAINT that concerns well-formedness: every conversion of a plain string/[]byte to redact.RedactableString/RedactableBytes takes a value that was BUILT as a redactable string (redact.Sprint*/Redact(), a typed RedactableString input, or the wire slot an encoder fills from one) - never a merely safe plain string, whose marker runes would not be escaped",
 			Run: func(c *core.Ctx) { runTaintFiltered(c, func(s *Sink) bool { return s.Mode == "redactable" }) }}},
 		Explain: "Decides the structural half of well-formedness and of the refusal clause: unsafe layer text reaches the redactable buffer only escaped-and-enclosed (R-ESC); the 'already redactable' flag is set only for text produced by the safe printer (R-BUFFLAG); plain strings are never re-labelled as redactable without escaping; the verb dispatch refuses %q/%x/%X/%#v under redactable output and honours width/precision in every case (exhaustive evaluation of the guard predicates). " +
 			"NOT decided: balance/non-nesting/per-line balance for arbitrary input bytes (the redact package's escaping and state.Write's newline bookkeeping are loop arithmetic over runtime bytes), and marker-stripping congruence with the plain rendering.",
@@ -122,7 +122,7 @@ func init() {
 	})
 	register(&Prop{
 		ID:    "C03",
-		Rules: []*Rule{rTaint, rSpecialLeaf, rEsc, rBufFlag, rRedactableOps},
+		Rules: []*Rule{rSafeSink, rTaint, rSpecialLeaf, rEsc, rBufFlag, rRedactableOps},
 		Explain: "Decides, for EVERY PII-free output position of the module and every value that can reach it (all compositions, hops and unknowing receivers at once, because decoders, opaque types and encoders are sources/sinks like any other), that its data origins lie in the library's documented safe classes: " +
 			"S1 SafeDetails()/GetSafeDetails payloads, S2 encoders' reportable strings, S3 every redact.Safe/Safe*-conversion/format-string/RedactableString-conversion site, S4 the formatter's final buffer (raw layer text only under !redactable || entry.redactable, else escaped; redactable flag only on safe-printer arms), S5 every write into the Sentry message/exception/extras; the special-case printers declare whole texts safe only for true leaves. " +
 			"NOT decided: the redact package's own escaping of marker runes and newlines inside strings (hostile alphabet), third-party SafeDetails()/SafeFormatter implementations (contract trusted).",
@@ -152,14 +152,14 @@ func init() {
 	})
 	register(&Prop{
 		ID:    "C09",
-		Rules: []*Rule{rVisitAll, rFormattable, rFmtDelegate, rShape, rDetailPrint, rElide, rVerbDispatch, rGuardField, rSep, rStateFlags, rWriteFaithful, scoped(rFormatArg, "the detail formatters: a stored text is printed, not used as a format", func(_ *core.Ctx, k string) bool { return containsAny(k, "FormatError", "SafeFormatError") }), rSpecialText, scoped(rCodec, "clause A2: details that a decoder reads by position are written at fixed positions, so each wrapper's own detail lands in its own field (and is printed under its own label) after a hop", func(_ *core.Ctx, k string) bool { return strings.Contains(k, "] A2 ") })},
+		Rules: []*Rule{rFinish, rVisitAll, rFormattable, rFmtDelegate, rShape, rDetailPrint, rElide, rVerbDispatch, rGuardField, rSep, rStateFlags, rWriteFaithful, scoped(rFormatArg, "the detail formatters: a stored text is printed, not used as a format", func(_ *core.Ctx, k string) bool { return containsAny(k, "FormatError", "SafeFormatError") }), rSpecialText, scoped(rCodec, "clause A2: details that a decoder reads by position are written at fixed positions, so each wrapper's own detail lands in its own field (and is printed under its own label) after a hop", func(_ *core.Ctx, k string) bool { return strings.Contains(k, "] A2 ") })},
 		Explain: "Decides the code-level reasons the verbs are mutually consistent: every instantiated library type routes Format through the single dispatcher FormatError; Error() and the detail formatter of each type agree on the message shape (so %v/%s = Error() at every depth); each wrapper's annotation fields reach a Print inside the detail region. " +
 			"NOT decided: width/precision/flag rendering (delegated to fmt), entry numbering/indentation and the 'Error types' line (loop arithmetic over runtime lists), comparison with reference renderings.",
 		Trusted: []string{"go/ssa", "fmt and redact formatting semantics"},
 	})
 	register(&Prop{
 		ID: "C08",
-		Rules: []*Rule{scoped(rOpaque, "a received layer keeps the family name it came with (getTypeDetails of the opaque types)", func(_ *core.Ctx, k string) bool { return strings.Contains(k, "getTypeDetails") }), scoped(rEffect, "Is/IsAny are pure functions of their arguments: no package-level memo of marks", func(_ *core.Ctx, k string) bool { return containsAny(k, "markers.", "getMark", "Mark") }), rKeyMarker, rCmpGuard, {Name: "R-BOUNDS", Doc: rBounds.Doc + " (restricted to package markers: equalMarks' lock-step indexing is also the 'difference in chain length makes them different' clause)",
+		Rules: []*Rule{rTypeNameRaw, scoped(rOpaque, "a received layer keeps the family name it came with (getTypeDetails of the opaque types)", func(_ *core.Ctx, k string) bool { return strings.Contains(k, "getTypeDetails") }), scoped(rEffect, "Is/IsAny are pure functions of their arguments: no package-level memo of marks", func(_ *core.Ctx, k string) bool { return containsAny(k, "markers.", "getMark", "Mark") }), rKeyMarker, rCmpGuard, {Name: "R-BOUNDS", Doc: rBounds.Doc + " (restricted to package markers: equalMarks' lock-step indexing is also the 'difference in chain length makes them different' clause)",
 			Run: func(c *core.Ctx) {
 				runBounds(c, func(rel, fn string) bool { return rel == "markers" })
 			}}, rRecover, rNilSafe, rMarkLayers, rCtorCause, rWalkCurrent, rIsMethod, scoped(rWalkMulti, "Is and IsAny range over errbase.UnwrapMulti itself (no derived collection keyed by error values, which may be unhashable)", func(_ *core.Ctx, k string) bool { return strings.Contains(k, "markers.Is") }), rMemo, scoped(rAlwaysWraps, "Mark", func(_ *core.Ctx, k string) bool { return strings.Contains(k, "Mark(") }), scoped(rStdIdentity, "identity tests", func(_ *core.Ctx, k string) bool { return containsAny(k, "errors.Is", "errors.As") }), {Name: "R-LOOP-EXITS", Doc: rLoopExits.Doc, Run: func(c *core.Ctx) { runLoopExits(c, map[string]bool{"markers.Is": true, "markers.IsAny": true}) }}},
@@ -169,7 +169,7 @@ func init() {
 	})
 	register(&Prop{
 		ID: "C16",
-		Rules: []*Rule{rProbeOrder, forwardScoped("New*", "Errorf", "Wrap*", "WithStack*", "Join*", "AssertionFailed*", "NewAssertionErrorWithWrappedErrf", "HandleAsAssertionFailure*", "UnimplementedError*", "GetOneLineSource", "GetReportableStackTrace"), rStackParse, scoped(rJoinNode, "JoinWithDepth always goes through WithStackDepth: no shortcut returns an argument without the stack of the call", func(_ *core.Ctx, k string) bool { return strings.Contains(k, "JoinWithDepth") }), rDepth, rMemo, rFuncName, rStackWhole, scoped(rAlwaysWraps, "the stack-capturing constructors: a stack is captured at every call, never skipped because of what the error already carries", func(_ *core.Ctx, k string) bool {
+		Rules: []*Rule{rPkgDomain, rProbeOrder, forwardScoped("New*", "Errorf", "Wrap*", "WithStack*", "Join*", "AssertionFailed*", "NewAssertionErrorWithWrappedErrf", "HandleAsAssertionFailure*", "UnimplementedError*", "GetOneLineSource", "GetReportableStackTrace"), rStackParse, scoped(rJoinNode, "JoinWithDepth always goes through WithStackDepth: no shortcut returns an argument without the stack of the call", func(_ *core.Ctx, k string) bool { return strings.Contains(k, "JoinWithDepth") }), rDepth, rMemo, rFuncName, rStackWhole, scoped(rAlwaysWraps, "the stack-capturing constructors: a stack is captured at every call, never skipped because of what the error already carries", func(_ *core.Ctx, k string) bool {
 			return containsAny(k, "WithStack", "Wrap", "AssertionFail", "AssertionError", "HandleAsAssertion")
 		}), scoped(rBarrierCtor, "the assertion-failure constructors", func(_ *core.Ctx, k string) bool { return containsAny(k, "Assertion") }), scoped(rStackEmpty, "the one-line source parser", func(_ *core.Ctx, k string) bool { return strings.Contains(k, "getOneLineSourceFromPrintedStack") }), rOrderOneLine, scoped(rOneParser, "GetOneLineSource", func(_ *core.Ctx, k string) bool {
 			return containsAny(k, "GetOneLineSource", "getOneLineSourceFromPkgStack")
@@ -180,7 +180,7 @@ func init() {
 	})
 	register(&Prop{
 		ID:    "C10",
-		Rules: []*Rule{rArgUsed, rMultiUncond, rPassThroughGuard, {Name: "R-LOOP-EXITS", Doc: rLoopExits.Doc + " (here: the walks of Is and IsAny - a wrapper above a matching layer never ends the search early)", Run: func(c *core.Ctx) { runLoopExits(c, map[string]bool{"markers.Is": true, "markers.IsAny": true}) }}, rNil, rBoxedNil, rShape, rWrapDual, rCtorCause, rAlwaysWraps, rFormatStored, rOwnedBranches, scoped(rWalkCurrent, "Is, IsAny, If, As and the accessors", nil), scoped(rWalkMulti, "Is, IsAny, As: every layer of the chain looks into its branches, so a match inside a branch survives any wrapper", func(_ *core.Ctx, k string) bool { return containsAny(k, "markers.Is", "errutil.As") }), rFormatArg, rFmtPath, forwardScoped("New*", "Wrap*", "With*", "Errorf", "Handled*", "Opaque", "Mark", "CombineErrors", "Join*", "AssertionFailed*", "NewAssertionErrorWithWrappedErrf", "HandleAsAssertionFailure*", "UnimplementedError*")},
+		Rules: []*Rule{scoped(rBarrierCtor, "Wrapf with an error among its arguments: the wrapped error stays the primary one (prefix: cause-text)", func(_ *core.Ctx, k string) bool { return containsAny(k, "WrapWithDepthf", "secondary") }), rArgUsed, rMultiUncond, rPassThroughGuard, {Name: "R-LOOP-EXITS", Doc: rLoopExits.Doc + " (here: the walks of Is and IsAny - a wrapper above a matching layer never ends the search early)", Run: func(c *core.Ctx) { runLoopExits(c, map[string]bool{"markers.Is": true, "markers.IsAny": true}) }}, rNil, rBoxedNil, rShape, rWrapDual, rCtorCause, rAlwaysWraps, rFormatStored, rOwnedBranches, scoped(rWalkCurrent, "Is, IsAny, If, As and the accessors", nil), scoped(rWalkMulti, "Is, IsAny, As: every layer of the chain looks into its branches, so a match inside a branch survives any wrapper", func(_ *core.Ctx, k string) bool { return containsAny(k, "markers.Is", "errutil.As") }), rFormatArg, rFmtPath, forwardScoped("New*", "Wrap*", "With*", "Errorf", "Handled*", "Opaque", "Mark", "CombineErrors", "Join*", "AssertionFailed*", "NewAssertionErrorWithWrappedErrf", "HandleAsAssertionFailure*", "UnimplementedError*")},
 		Explain: "Decides the nil clauses of the property for every exported constructor on every path (nilness abstract interpretation, no execution). " +
 			"NOT decided: equality of Error() strings with the compositional model, 'Join of only nils = nil' (a count over runtime arguments).",
 		Trusted: []string{"go/ssa", "nilness lattice with branch refinement; unknown callees are Top"},
